@@ -121,9 +121,23 @@ def cfgStep (c : Cfg) (ws : List String) : Option Cfg :=
   | ["preq", n, p] =>
     (updLastPDef (pctDec n) (fun d => { d with required := d.required ++ [pctDec p] }) c.pdefs).map
       fun ps => { c with pdefs := ps }
-  | ["flow", n] => some { c with flows := c.flows ++ [{ name := pctDec n }] }
-  | ["flow", n, u] =>
-    (kv [u] "url").map fun v => { c with flows := c.flows ++ [{ name := pctDec n, url := optStr v }] }
+  | "flow" :: n :: opts =>
+    let url? : Option (Option String) := match kv opts "url" with
+      | some v => some (optStr v)
+      | none => some (some "verif.test/x")
+    let st? : Option (List Nat) := match kv opts "status" with
+      | some v => (v.splitOn ",").mapM String.toNat?
+      | none => some []
+    if !opts.all (fun w => w.startsWith "url=" || w.startsWith "status=") then none else
+    match url?, st? with
+    | some u, some st => some { c with flows := c.flows ++ [{ name := pctDec n, url := u, status := st }] }
+    | _, _ => none
+  | ["connnull", f, d] =>
+    match parseDir d with
+    | some .req => updFlow c (pctDec f) fun r => { r with req := r.req ++ [⟨.nothing, .nothing⟩] }
+    | some .res => updFlow c (pctDec f) fun r => { r with res := r.res ++ [⟨.nothing, .nothing⟩] }
+    | none => none
+  | ["procnull", f, k] => updFlow c (pctDec f) fun r => { r with procs := r.procs ++ [⟨pctDec k, "", []⟩] }
   | "proc" :: f :: k :: pt :: params =>
     (params.mapM fun w => (splitKV w).map fun (a, b) => (pctDec a, pctDec b)).bind fun ps =>
       updFlow c (pctDec f) fun r => { r with procs := r.procs ++ [⟨pctDec k, pctDec pt, ps⟩] }
@@ -201,7 +215,7 @@ def runStep (s : RunSt) (line : String) : RunSt × String :=
     | some d, some t =>
       match s.loaded with
       | none => (s, "not-loaded")
-      | some fls => (s, fmtTxn (runTxn fls t.toOracle d))
+      | some fls => (s, fmtTxn (runTxn s.cfg fls t.toOracle d))
     | _, _ => (s, "bad-op")
   | "rtxn" :: rest =>
     match (kv rest "dir").bind parseDir with
